@@ -30,5 +30,13 @@ if a in s:
     s = s[:s.index(a)] + block + s[s.index(b) + len(b):]
 else:
     s += '\n' + block + '\n'
+import re
+names = sorted(R)
+n = len(names)
+d = sum(1 for x in names if any(isinstance(v, dict) and v['verdict'] == 'detected' for v in R[x].values()))
+own = sum(1 for x in names if isinstance(R[x].get(x[:3]), dict) and R[x][x[:3]]['verdict'] == 'detected')
+for k, v in (('N', n), ('D', d), ('OWN', own)):
+    s = re.sub(r'<!--%s-->.*?<!--/%s-->' % (k, k), '<!--%s-->%d<!--/%s-->' % (k, v, k), s)
 open('/verif/DESIGN.md', 'w').write(s)
+print('seeds', n, 'detected', d, 'own', own)
 print(len(rows), 'rows')
